@@ -100,7 +100,7 @@ type ContractFile struct {
 
 var clauseKeywords = map[string]bool{
 	"func": true, "spec": true, "ghost": true, "lemma": true, "axiom": true,
-	"requires": true, "ensures": true, "loop": true, "nopanic": true,
+	"requires": true, "ensures": true, "loop": true, "callback": true, "nopanic": true,
 	"assigns": true, "effects": true, "calls": true, "pure": true,
 	"trusted": true, "inline": true, "reach": true, "opaque": true, "crash_invariant": true, "results": true,
 }
@@ -235,7 +235,7 @@ func parseContractFile(path, pkgPath string) (*ContractFile, error) {
 			default:
 				cur.Crash = append(cur.Crash, c)
 			}
-		case "loop":
+		case "loop", "callback":
 			if err := needCur(); err != nil {
 				return nil, err
 			}
@@ -246,6 +246,9 @@ func parseContractFile(path, pkgPath string) (*ContractFile, error) {
 			n, err := strconv.Atoi(fs[0])
 			if err != nil {
 				return nil, fmt.Errorf("%s:%d: loop ordinal: %v", path, rl.line, err)
+			}
+			if w == "callback" {
+				n = -n // callback ordinals live in the negative keys of Inv
 			}
 			afterN := strings.TrimSpace(strings.TrimPrefix(rest, fs[0]))
 			kw := fs[1]
@@ -258,6 +261,13 @@ func parseContractFile(path, pkgPath string) (*ContractFile, error) {
 			}
 			body := strings.TrimSpace(strings.TrimPrefix(afterN, kw))
 			switch kw {
+			case "assume":
+				c, err := mk("assume", body)
+				if err != nil {
+					return nil, err
+				}
+				c.Loop = n
+				cur.Inv[n-1000] = append(cur.Inv[n-1000], c)
 			case "invariant":
 				c, err := mk("invariant", body)
 				if err != nil {
